@@ -820,6 +820,20 @@ func (r *Reconciler) evictPod(ctx context.Context, job *sev1alpha1.PodMigrationJ
 		return false, reconcile.Result{}, err
 	}
 
+	// The same-node check of prepareJobWithReservationScheduleSuccess is made only once, when the Reservation is
+	// first seen scheduled. If the eviction could not be issued in that reconcile, the Pod may have been replaced
+	// by a Pod of the same name since then; never evict a Pod that runs on the node assigned to the Reservation.
+	if job.Status.NodeName != "" && job.Status.NodeName == pod.Spec.NodeName {
+		job.Status.Phase = sev1alpha1.PodMigrationJobFailed
+		job.Status.Reason = sev1alpha1.PodMigrationJobReasonForbiddenMigratePod
+		job.Status.Message = fmt.Sprintf("Pod %q runs on the node %q assigned to the Reservation", podNamespacedName, pod.Spec.NodeName)
+		err = r.Client.Status().Update(ctx, job)
+		if err == nil {
+			r.eventRecorder.Eventf(job, nil, corev1.EventTypeWarning, sev1alpha1.PodMigrationJobReasonForbiddenMigratePod, "Migrating", job.Status.Message)
+		}
+		return false, reconcile.Result{}, err
+	}
+
 	if job.Spec.DeleteOptions == nil {
 		job.Spec.DeleteOptions = r.args.DefaultDeleteOptions
 	}
